@@ -680,7 +680,23 @@ pub fn run_history(root: &str, scn: &mut Scn, oracle: &mut Oracle, st: &mut Stat
                             if inv.recover {
                                 // repeat fault-free, overwrite confirmed: the final state must be right
                                 let yes: Vec<String> = vec!["y".into(), "y".into(), "y".into(), "y".into()];
-                                let e2 = match predict(&after, &meaning, &inv, &yes, oracle) {
+                                // a target the faulted run damaged no longer means what it meant (it may
+                                // also be an *input* of this very invocation, e.g. `-w x.wsca -o x.wsca`)
+                                let mut meaning2 = meaning.clone();
+                                for p in &e.may_touch {
+                                    if after.get(p) != before.get(p) {
+                                        let m = e.writes.iter().find(|(wp, _)| wp == p).map(|(_, m)| m.clone());
+                                        match (m, after.get(p) == rec_after.get(p)) {
+                                            (Some(m), true) => {
+                                                meaning2.insert(p.clone(), m);
+                                            }
+                                            _ => {
+                                                meaning2.remove(p);
+                                            }
+                                        }
+                                    }
+                                }
+                                let e2 = match predict(&after, &meaning2, &inv, &yes, oracle) {
                                     Pred::Judged(e2) => e2,
                                     Pred::Unjudgeable(_) => {
                                         st.unjudgeable += 1;
@@ -704,6 +720,7 @@ pub fn run_history(root: &str, scn: &mut Scn, oracle: &mut Oracle, st: &mut Stat
                                     f.detail = format!("after plan {} and a fault-free repeat: {}", cli::plan_string(&plan), f.detail);
                                     return Some(f);
                                 }
+                                meaning = meaning2;
                                 for (p, m) in &e2.writes {
                                     meaning.insert(p.clone(), m.clone());
                                 }
